@@ -120,5 +120,50 @@ theorem locate_lineStarts_eq_specPos (content : Bytes) (off : Nat)
   simp only [locate, lineStarts, locate.go, specPos, Nat.zero_le, if_true, Nat.sub_zero, Nat.zero_add]
   exact this
 
+/-- **line numbers need no ASCII**: for CR-free text of any bytes, the line the reader's loop selects is the
+line of the LSP walk, whatever the characters in between are (the column components may differ) -/
+theorem locate_go_line_eq (content : Bytes) (acc s i d x c : Nat)
+    (hcr : noCr content = true) (hd : d ≤ content.length) :
+    (locate.go (s + acc + d) (lineStarts.go (lineLens content acc) s) (i + 1) ⟨i, x⟩).line
+      = (lspPos content d ⟨i, c⟩).line := by
+  induction content generalizing acc s i d x c with
+  | nil =>
+    have hd0 : d = 0 := by simpa using hd
+    subst hd0
+    rw [lspPos_zero, locate_go_lineLens_gt _ _ _ _ _ _ (by omega)]
+  | cons b rest ih =>
+    cases d with
+    | zero =>
+      rw [lspPos_zero, locate_go_lineLens_gt _ _ _ _ _ _ (by omega)]
+    | succ d =>
+      have hb13 : b ≠ 13 := by
+        simp [noCr] at hcr; exact hcr.1
+      have hcr' : noCr rest = true := by
+        simp [noCr] at hcr ⊢; exact hcr.2
+      have hd' : d ≤ rest.length := by simpa using hd
+      by_cases h10 : b = 10
+      · subst h10
+        rw [lineLens_lf, lspPos_lf]
+        simp only [lineStarts.go, locate.go]
+        have hle : s + acc + 1 ≤ s + acc + (d + 1) := by omega
+        simp only [hle, if_true]
+        have := ih 0 (s + acc + 1) (i + 1) d (s + acc + (d + 1) - (s + acc + 1)) 0 hcr' hd'
+        have e1 : s + acc + (d + 1) = s + acc + 1 + 0 + d := by omega
+        rw [e1] at this ⊢
+        exact this
+      · rw [lineLens_other b rest acc h10 hb13, lspPos_other b rest d _ h10]
+        have := ih (acc + 1) s i d x (c + utf16Units b) hcr' hd'
+        have e1 : s + acc + (d + 1) = s + (acc + 1) + d := by omega
+        rw [e1]
+        exact this
+
+theorem locate_line_eq_specPos_line (content : Bytes) (off : Nat)
+    (hcr : noCr content = true) (hoff : off ≤ content.length) :
+    (locate (lineStarts content) off).line = (specPos content off).line := by
+  have := locate_go_line_eq content 0 0 0 off (off - 0) 0 hcr hoff
+  simp only [Nat.zero_add] at this
+  simp only [locate, lineStarts, locate.go, specPos, Nat.zero_le, if_true, Nat.zero_add]
+  exact this
+
 end Position
 end Iwe
